@@ -18,7 +18,7 @@ from .. import c02_util as U
 from ..common import Verdict, use_repo, child_env, SEED, BUILD, PY, VERIF, ensure_dir
 from . import c02
 
-TIERS = {'quick': ['order1', 'tz2', 'mixed2'], 'thorough': ['order1', 'order2', 'mixed3', 'dates3', 'tz3']}
+TIERS = {'quick': ['order1', 'tz2', 'mixed2', 'mixed3', 'dates3'], 'thorough': ['order1', 'order2', 'mixed2', 'mixed3', 'dates3', 'tz3']}
 RANDOM_VALUES = {'quick': 1500, 'thorough': 30000}
 VARIANTS = {'quick': [0, 1], 'thorough': [0, 1, 2]}
 INVARIANTS = ['SortDeterminism', 'InsertionOrder', 'FixedPoint', 'AnchorsOfDocumentAlone', 'AnchorsWellFormed']
